@@ -10,7 +10,7 @@ git -C $MT checkout -q --detach $(git -C /repo rev-parse HEAD) 2>/dev/null
 git -C $MT checkout -- . ; git -C $MT clean -fdq
 git -C $MT apply "$PATCH" || { echo "PATCH DOES NOT APPLY"; exit 3; }
 cd /verif
-VERIF_REPO=$MT VERIF_NO_EVIDENCE=1 ./bin/check $PROP --tier $TIER 2>&1 | grep -v "SUCCESS\|SATISFIED\|   OK  " | tail -${LINES_OUT:-12}
+VERIF_REPO=$MT VERIF_NO_EVIDENCE=1 VERIF_KANI_TARGET=/var/tmp/fuel-core-verif/mt-target ./bin/check $PROP --tier $TIER 2>&1 | grep -v "SUCCESS\|SATISFIED\|   OK  " | tail -${LINES_OUT:-12}
 rc=${PIPESTATUS[0]}
 git -C $MT checkout -- . ; git -C $MT clean -fdq
 echo "mutcheck $PROP rc=$rc patch=$PATCH"
